@@ -267,6 +267,9 @@ pub fn eval_seq(case: &SeqCase) -> SeqEval {
 pub fn decode_seq(t: &mut Tape, max_fns: usize, max_ops: usize) -> SeqCase {
     let mut ops = vec![];
     let mut n = 0usize;
+    // half of the sequences stay on a very small node set (dense repeats / cycles),
+    // the others may use up to `max_fns` functions
+    let max_fns = if t.chance(1, 2) { max_fns.min(6) } else { max_fns };
     let len = t.below(max_ops + 1);
     // one sequence in sixteen works on a large node set (65..=140 functions added
     // up front) with the edge calls concentrated on a few "hot" functions, so that
